@@ -91,8 +91,15 @@ def c09_pfba(E, templates=QUICK_T, fractions=(1, Fraction(1, 2), 0)):
     req_ids = ids if req is None else [getattr(r, "id", r) for r in req]
     lp = fba_lp(m)
     status, opt, _, _ = lp.optimum(E, obj, direction, name="oracle")
+    wrong_sign = False
     if status == "optimal" and fraction != 1:
-        E.assume(opt >= 0 if direction == "max" else opt <= 0)
+        # an optimum of the other sign makes "objective at or beyond fraction x optimum" unsatisfiable: the secondary problem has
+        # no solution and the call has to say so (it raises) instead of handing back numbers (sixth seed round)
+        wrong_sign = E.flag("optimum_has_the_other_sign")
+        if wrong_sign:
+            E.assume(opt < 0 if direction == "max" else opt > 0)
+        else:
+            E.assume(opt >= 0 if direction == "max" else opt <= 0)
     before = observe(m)
     try:
         sol = pfba(m, fraction_of_optimum=float(fraction) if fraction in (0, 1) else fraction, objective=arg_obj,
@@ -104,6 +111,10 @@ def c09_pfba(E, templates=QUICK_T, fractions=(1, Fraction(1, 2), 0)):
         same(E, before, observe(m), "model-unchanged", what="pfba")
     if status != "optimal":
         E.prove(raised is not None, "raises-when-no-optimum", oracle=status)
+        return
+    if wrong_sign:
+        E.prove(raised is not None, "raises-when-the-secondary-problem-has-no-solution", fraction=str(fraction),
+                got=None if sol is None else sol.status)
         return
     E.prove(raised is None and sol is not None and sol.status == "optimal", "optimal-on-feasible-model", got=repr(raised))
     if sol is None:
